@@ -27,7 +27,7 @@ ASSUMPTIONS = [
     "caps for health / long-term-care contributions allow the full (employee+employer) rate for the self-employed and an additional full-rate contribution on pension income, as the rules implement it",
 ]
 BUDGET = {"quick": (32, 12), "thorough": (None, 80)}
-GEN = dict(mode="extreme", max_households=4, max_children=10)
+GEN = dict(mode="extreme", max_households=4, max_children=13)
 TOL = 1e-6
 
 
@@ -76,6 +76,15 @@ def caps(res, df, params, date):
             pv = sv["beitr_satz"]["ges_pflegev"]
             pv_full = 2.0 * float(pv["standard"]) + float(pv.get("zusatz_kinderlos", 0.0))
             yield "pflegev<=2*full_rate*ceiling", c["ges_pflegev_beitr_arbeitnehmer_m"], 2.0 * pv_full * ceil_kv
+    for lvl in ("wthh", "bg"):
+        if has(f"wohngeld_anspruchshöhe_m_{lvl}", f"wohngeld_miete_m_{lvl}", f"anz_personen_{lvl}"):
+            # more than 12 persons: formula value plus a lump sum per further person, "still capped at" the
+            # rent considered (§ 19 Abs. 3 WoGG; the limit 12 is the parameter max_anz_personen_normale_berechnung)
+            big = params["wohngeld"].get("bonus_sehr_große_haushalte")
+            if isinstance(big, dict) and "max_anz_personen_normale_berechnung" in big:
+                many = c[f"anz_personen_{lvl}"].to_numpy() > int(big["max_anz_personen_normale_berechnung"])
+                yield (f"wohngeld_large_household<=rent_considered({lvl})", np.where(many, c[f"wohngeld_anspruchshöhe_m_{lvl}"].to_numpy(), 0.0),
+                       np.where(many, c[f"wohngeld_miete_m_{lvl}"].to_numpy() + 1.0, 0.0))
     if has("_arbeitsl_geld_2_alleinerz_mehrbedarf_m"):
         # "max gibt den Maximalanteil fuer den Mehrbedarf fuer Alleinerziehende" (share of the standard rate)
         yield "alleinerz_mehrbedarf<=max_share", c["_arbeitsl_geld_2_alleinerz_mehrbedarf_m"], float(params["arbeitsl_geld_2"]["mehrbedarf_anteil"]["max"])
@@ -190,8 +199,56 @@ def oracle(pop, date, sh, ctx):
     return fails
 
 
+def large_family_shard(desc):
+    """Households of 11-16 persons along a grid of low wages, with cheap to ordinary rents: the rules for
+    very large households (lump sums per further person, tables that end at five or twelve persons) are
+    otherwise reached with incomes and rents that make their caps irrelevant."""
+    import datetime
+
+    from hypothesis import strategies as st
+
+    from .. import dates as D
+    from . import c17
+
+    sh = core.Shard()
+    known = core.load_known(PROP)
+    date = datetime.date.fromisoformat(desc["date"])
+
+    @st.composite
+    def cases(draw):
+        pop = draw(popgen.populations(date, mode="mid", max_households=1, max_children=14, archetypes=["couple_kids", "couple_kids", "single_parent", "three_gen"],
+                                      shuffle=False).filter(lambda p: len(p.df) >= 11))
+        adults = np.flatnonzero((pop.df["alter"] >= 18).to_numpy())
+        who = int(draw(st.sampled_from(list(adults))))
+        rent = draw(st.sampled_from([300.0, 500.0, 700.0, 900.0, 1200.0, 1800.0]))
+        top = draw(st.sampled_from([2500.0, 4000.0, 6000.0]))
+        return pop, who, top, rent
+
+    def oracle(case):
+        pop, who, top, rent = case
+        sweep, grid, n = c17.build_sweep(pop.df, who, top, 12, True, 0.0, rent)
+        stats = []
+        fails = check(sweep, date, stats)
+        for s_ in stats:
+            if not s_.startswith("other-exception:"):
+                sh.nontrivial.add(f"{desc['date']}|large|{s_}")
+        sh.classes[f"large-family-sweep:{min(len(pop.df), 16)}-persons"] += 1
+        sh.sample({"date": desc["date"], "large_family": True, "persons": int(len(pop.df)), "rent": rent, "wage_grid_top": top}, limit=1)
+        for f in fails:
+            if f.key not in known:
+                f.case = popcheck.payload(sweep, date)
+        return fails
+
+    core.explore(cases(), oracle, n=desc["n"], seed=D.sub_seed(desc["seed"], PROP, "large", desc["date"]), shard=sh, known=known, shrink=False)
+    return sh
+
+
 def run(tier, seed, t0):
-    return popcheck.run(__name__, tier, seed, t0)
+    from .. import dates as D
+
+    days = [s_[0].isoformat() for s_ in D.pick(D.strata(), 16 if tier == "quick" else 32, seed, PROP, "large")]
+    extra = [("vf.checks.c16", "large_family_shard", [{"date": d, "n": 3 if tier == "quick" else 12, "seed": seed} for d in days])]
+    return popcheck.run(__name__, tier, seed, t0, extra_descs=extra)
 
 
 def replay(case):
